@@ -9,6 +9,7 @@ that returned "fractions" up to 1.23) vs `retention_exact` at 1e-9.
 import glob
 import math
 import os
+import re
 
 import numpy as np
 
@@ -151,6 +152,20 @@ def run(chk):
                     if not C.close_float(r_, float(v[1]), rtol=1e-9, atol=1e-13):
                         dis.append(dict(what="retention", input=dict(method=mt, FeH=fh, m=m, vesc=ve, vdisp=vd_, fb=fb), impl=r_, model=float(v[1])))
                 exprs, meta = [], []
+    # every table of both prescriptions: no fallback below the lightest tabulated remnant, full fallback above the heaviest one
+    nall = 0
+    for meth_ in ("rapid", "delayed"):
+        for fn_ in sorted(glob.glob(os.path.join(C.REPO, "ssptools", "data", "ifmr", "uSSE_%s" % meth_, "IFMR_FEH*.dat"))):
+            mm_ = re.search(r"IFMR_FEH([+-]\d+\.\d\d)\.dat", fn_)
+            feh_ = float(mm_.group(1))
+            tab_ = np.loadtxt(fn_, usecols=(1, 3))
+            fi_ = kicks._F12_fallback_frac(feh_, SNe_method=meth_)
+            above, below = float(fi_(tab_[:, 0].max() * 1.1)), float(fi_(tab_[:, 0].min() * 0.9))
+            nall += 1
+            if above != 1.0 or below != 0.0:
+                chk.fail("fallback fraction is interpolated from the table of the metallicity and supernova prescription in use",
+                         dict(FeH=feh_, method=meth_, m="outside the tabulated remnant masses"), dict(above_table=above, below_table=below, expected=[1.0, 0.0]))
+    chk.count("fallback tables checked outside their range", nall)
     chk.correspondence("interp1d (1e-12) vs _F12_fallback_frac(FeH)(m); retention_exact (1e-9) vs _maxwellian_retention_frac", ncmp, dis)
     # ---- dispatch --------------------------------------------------------------------
     M, N = np.array([30.0, 40.0]), np.array([2.0, 2.0])
